@@ -20,3 +20,11 @@ type WALEntryObserver interface {
 	// This method is called after the fsync operation has completed successfully.
 	OnWALSync(upToSeq uint64)
 }
+
+// WALRotationObserver can be implemented by an observer that also keeps a reference
+// to the WAL it observes (to read entries back or to ask for the next sequence number).
+// When the storage manager replaces the WAL object, the observers of the old WAL are
+// handed over to the new one and OnWALRotated tells them which WAL is current now.
+type WALRotationObserver interface {
+	OnWALRotated(newWAL *WAL)
+}
